@@ -288,11 +288,33 @@ func c14Accept(c *Ctx, cg *core.CallGraph) {
 		r.Check(all, "R-C14.2", "temperror.tempError.Temporary", p.Pos(tf.Pos()), "constant true", "Temporary() can return false")
 	}
 	if nf := c.need("R-C14.2", "util/temperror", "New"); nf != nil {
-		okn := false
+		// every non-nil result is a value of the temporary error type (never the inner error passed through)
+		inner := ssa.Value(nf.Params[0])
+		bad := ""
+		n := 0
 		for _, ret := range core.Returns(nf) {
-			okn = strings.Contains(ret.Results[0].Type().String(), "tempError")
+			v := core.ReturnOperand(ret, 0)
+			for _, src := range flattenPhi(v) {
+				n++
+				if core.IsNilConst(src) {
+					// allowed only when the inner error is nil
+					g := core.NilTest("inner is nil", func(pp core.Path) bool { return pp.Root == inner && len(pp.Fields) == 0 }, true)
+					res := core.CutReach(p, nf, g, ret.Block())
+					if res.Reachable || len(res.Instances) == 0 {
+						bad = "returns nil for a non-nil inner error"
+					}
+					continue
+				}
+				t := src.Type().String()
+				if mi, ok := src.(*ssa.MakeInterface); ok {
+					t = mi.X.Type().String()
+				}
+				if !strings.Contains(t, "tempError") {
+					bad = "a path returns " + core.ValueName(src) + " (type " + t + "), not the temporary error type"
+				}
+			}
 		}
-		r.Check(okn, "R-C14.2", "temperror.New result type", p.Pos(nf.Pos()), "returns the temporary error type", "temperror.New does not return the temporary error type")
+		r.Check(bad == "" && n > 0, "R-C14.2", "temperror.New wraps on every path", p.Pos(nf.Pos()), "every result is the temporary error type", "temperror.New: "+bad+": such an error stops gRPC-style accept loops")
 	}
 
 	// R-C14.3: who closes the base listener
